@@ -125,19 +125,26 @@ func simpleMatches(rules []string, requests []string, matchFn ...func(m matcher)
 		return true
 	}
 
+	if len(filtered) == 0 {
+		return false
+	}
+	// filterRules returns either only positive or only reversed matchers.
+	// A reversed list matches exactly the requests its positive counterpart does not match.
+	reverse := filtered[0].reverse
 	for _, v := range filtered {
+		positive := matcher{value: v.value}
 		for _, request := range requests {
-			if v.match(request) {
-				return true
+			if positive.match(request) {
+				return !reverse
 			}
 		}
 		for _, match := range matchFn {
-			if match(v) {
-				return true
+			if match(positive) {
+				return !reverse
 			}
 		}
 	}
-	return false
+	return reverse
 }
 
 type matcher struct {
